@@ -195,9 +195,12 @@ def dedupCoords : List Coord → List String → List Coord
   | [], _ => []
   | c :: r, seen => if seen.contains c.name then dedupCoords r seen else c :: dedupCoords r (c.name :: seen)
 
-def isArr : Val → Bool
-  | .arr _ _ => true
-  | _ => false
+/-- how the value of an output without MapSpec is stored: a non-array as a 0-d variable (`((), value)`), a 0-d/1-D ndarray
+    bare (`none`: xarray names the dimension of a 1-D array after the variable), an n-D ndarray with the dimension names
+    `<name>_dim_<k>` -/
+def singleDims (n : String) : Val → Option (List (Option String))
+  | .arr sh _ => if sh.length ≤ 1 then none else some ((List.range sh.length).map fun k => some (n ++ "_dim_" ++ toString k))
+  | _ => some []
 
 /-- `_xarray_dataset(mapspecs, inputs, data_loader, output_names, load_intermediate)` -/
 def xarrayDataset (mss : List MSpec) (inputs : List (String × Val)) (load : String → Option Val) (outputNames : List String)
@@ -210,7 +213,7 @@ def xarrayDataset (mss : List MSpec) (inputs : List (String × Val)) (load : Str
   let singles ← single.mapM fun n =>
     match load n with
     | none => throw (Err.key n)
-    | some v => pure ({ name := n, dims := if isArr v then none else some [], data := v } : Var)
+    | some v => pure ({ name := n, dims := singleDims n v, data := v } : Var)
   pure { vars := (toMerge.map fun da => { name := da.name, dims := some da.dims, data := da.data }) ++ singles,
          coords := dedupCoords (toMerge.flatMap (·.coords)) [] }
 
